@@ -328,7 +328,7 @@ def targets(tier='quick'):
     for ne in (0, 1):
         T.append(Target('dyn/schedule[envs=%d]' % ne, 'system_dynamics.compute_dynamics',
                         lambda ip, repo, ne=ne: dyn.cd_scenario(ip, repo, num_envs=ne), post_cd_schedule, RD, PROP,
-                        replay=lambda ob: {'func': 'dynamics_with_controls', 'inputs': {'obligation': ob['name']}}))
+                        replay=lambda ob: {'func': 'float_time_controls' if 'get_controls' in ob['name'] else 'dynamics_with_controls', 'inputs': {'obligation': ob['name']}}))
     # PT-TEBD: where the chain controls sit inside a step (half chain propagator, process tensors, half chain propagator,
     # pre controls, record, post controls): the state-machine contract of C14, discharged here as well
     from . import c14
